@@ -47,6 +47,9 @@ type c01Ver struct {
 	Desc    string     // human-readable rendering (goes into failure output and samples)
 	Mk      func() any // builds a fresh value
 	Invalid bool       // generated as an invalid variant (must be dropped by the ValidationFilter)
+	// Neutral, when set, returns the variant of this version used to steer away from a known
+	// finding (see c01SigTierStale).
+	Neutral func() c01Ver
 }
 
 type c01Slot struct {
@@ -62,6 +65,41 @@ type c01Universe struct {
 	Slots []c01Slot
 	// Knobs for validity decisions that depend on Felix config.
 	SpoofingAllowed bool
+	// SteerBlocks is set when the known finding c01SigBlockStale is listed: the generator then
+	// avoids, by construction, routes nested inside an IPAM block (local workload addresses inside
+	// block CIDRs, non-affine "borrowed" allocations), which is the only way to reach that finding.
+	SteerBlocks bool
+	// SteerLocalNode is set when c01SigSameSubnetStale is listed.
+	SteerLocalNode bool
+	// PreferVXLAN biases pools towards VXLAN modes and nodes towards having a BGP IPv4 address, so
+	// that VTEPs and routes that need them coexist often ("vxlan" focus).
+	PreferVXLAN bool
+	Steered        map[string]bool // signature -> steering actually changed a drawn value in this case
+}
+
+// c01SigBlockStale: L3RouteResolver does not recompute routes nested inside an IPAM block when
+// the block is added / removed / changes node (RouteTrie.UpdateBlockRoute/RemoveBlockRoute do not
+// mark contained CIDRs dirty, unlike UpdatePool), so borrowed / types / dst_node_name of the nested
+// route depend on delivery order.
+const c01SigBlockStale = "l3rr-block-update-leaves-contained-routes-stale"
+
+// c01SigTierStale: PolicySorter.OnUpdate clears Valid and Order but not DefaultAction when a Tier
+// is deleted while active policies still name it, so endpoints keep the deleted tier's default
+// action until Felix restarts (a fresh Felix reports "" for the absent tier).
+const c01SigTierStale = "policysorter-deleted-tier-keeps-default-action"
+
+// c01SigSameSubnetStale: L3RouteResolver.onNodeUpdate decides which routes to recompute with
+// myNewV4CIDR.ContainsV4(...) / myNewV6CIDR.ContainsV6(...) even when the local node's new CIDR of
+// that family is the zero value (node still exists but lost that address family); the zero CIDR
+// "contains" everything, so routes whose same_subnet must flip to false are not marked dirty
+// (nodeInOurSubnet itself does guard against the zero CIDR).
+const c01SigSameSubnetStale = "l3rr-local-node-loses-address-family-same-subnet-stale"
+
+var c01AllSigs = []string{c01SigBlockStale, c01SigTierStale, c01SigSameSubnetStale}
+
+// Addresses outside every block CIDR of the universe (used instead of in-block ones when steering).
+var c01V4AddrsOutsideBlocks = []string{
+	"10.0.3.1", "10.0.3.2", "10.0.3.3", "10.0.4.1", "10.0.4.2", "10.0.5.1", "10.0.5.2", "10.1.0.1", "192.168.0.9",
 }
 
 // ---- small vocabularies -------------------------------------------------------------------
@@ -129,6 +167,12 @@ func c01CloneMap(m map[string]string) map[string]string {
 		out[k] = v
 	}
 	return out
+}
+
+// c01OneIn draws a rare event with probability 1/n; the drawn value 0 (what rapid shrinks to) is
+// always the benign "did not happen" outcome.
+func c01OneIn(t *rapid.T, label string, n int) bool {
+	return rapid.IntRange(0, n-1).Draw(t, label) == n-1
 }
 
 func c01Selector(t *rapid.T, label string) string {
@@ -203,7 +247,7 @@ func c01EndpointPorts(t *rapid.T, label string, allowInvalid bool) (specs []c01P
 		p := rapid.SampledFrom(c01NamedPorts).Draw(t, fmt.Sprintf("%s.port[%d]", label, i))
 		specs = append(specs, c01PortSpec{Name: p.Name, Proto: p.Proto, Port: p.Port})
 	}
-	if allowInvalid && rapid.IntRange(0, 19).Draw(t, label+".badport") == 0 {
+	if allowInvalid && c01OneIn(t, label+".badport", 20) {
 		specs = append(specs, c01PortSpec{Name: "http", Proto: "icmp", Port: 80, BadProto: true})
 		invalid = true
 	}
@@ -293,14 +337,14 @@ func c01PortList(t *rapid.T, label string, numericOK bool) []string {
 }
 
 func c01OptSel(t *rapid.T, label string, oneIn int) string {
-	if rapid.IntRange(0, oneIn-1).Draw(t, label+".present") == 0 {
+	if c01OneIn(t, label+".present", oneIn) {
 		return c01Selector(t, label)
 	}
 	return ""
 }
 
 func c01OptNets(t *rapid.T, label string, oneIn int) []string {
-	if rapid.IntRange(0, oneIn-1).Draw(t, label+".present") != 0 {
+	if !c01OneIn(t, label+".present", oneIn) {
 		return nil
 	}
 	n := rapid.IntRange(1, 2).Draw(t, label+".n")
@@ -315,7 +359,7 @@ func c01Rule(t *rapid.T, label string, allowInvalid bool) c01RuleSpec {
 	r := c01RuleSpec{ICMPType: -1}
 	r.Action = rapid.SampledFrom([]string{"allow", "deny", "next-tier", "log", ""}).Draw(t, label+".action")
 	r.Proto = rapid.SampledFrom([]string{"", "", "tcp", "tcp", "udp", "icmp", "sctp"}).Draw(t, label+".proto")
-	if rapid.IntRange(0, 5).Draw(t, label+".ipv") == 0 {
+	if c01OneIn(t, label+".ipv", 6) {
 		r.IPVersion = rapid.SampledFrom([]int{4, 6}).Draw(t, label+".ipversion")
 	}
 	r.SrcSel = c01OptSel(t, label+".srcSel", 2)
@@ -326,28 +370,28 @@ func c01Rule(t *rapid.T, label string, allowInvalid bool) c01RuleSpec {
 	r.DstNets = c01OptNets(t, label+".dstNets", 6)
 	r.NotSrcNets = c01OptNets(t, label+".notSrcNets", 8)
 	r.NotDstNets = c01OptNets(t, label+".notDstNets", 10)
-	if rapid.IntRange(0, 9).Draw(t, label+".srcNet") == 0 {
+	if c01OneIn(t, label+".srcNet", 10) {
 		r.SrcNet = rapid.SampledFrom(c01CIDRs).Draw(t, label+".srcNetVal")
 	}
 	portsOK := r.Proto == "tcp" || r.Proto == "udp" || r.Proto == "sctp"
 	if portsOK || r.Proto == "" {
-		if rapid.IntRange(0, 1).Draw(t, label+".hasDstPorts") == 0 {
+		if c01OneIn(t, label+".hasDstPorts", 2) {
 			r.DstPorts = c01PortList(t, label+".dstPorts", portsOK)
 		}
-		if rapid.IntRange(0, 3).Draw(t, label+".hasSrcPorts") == 0 {
+		if c01OneIn(t, label+".hasSrcPorts", 4) {
 			r.SrcPorts = c01PortList(t, label+".srcPorts", portsOK)
 		}
-		if rapid.IntRange(0, 4).Draw(t, label+".hasNotDstPorts") == 0 {
+		if c01OneIn(t, label+".hasNotDstPorts", 5) {
 			r.NotDstPorts = c01PortList(t, label+".notDstPorts", portsOK)
 		}
 	}
-	if r.Proto == "icmp" && rapid.IntRange(0, 1).Draw(t, label+".hasICMP") == 0 {
+	if r.Proto == "icmp" && c01OneIn(t, label+".hasICMP", 2) {
 		r.ICMPType = rapid.SampledFrom([]int{0, 8, 254}).Draw(t, label+".icmpType")
 	}
-	if rapid.IntRange(0, 7).Draw(t, label+".origSel") == 0 {
+	if c01OneIn(t, label+".origSel", 8) {
 		r.OrigSrcSel = r.SrcSel
 	}
-	if allowInvalid && rapid.IntRange(0, 24).Draw(t, label+".invalidRule") == 0 {
+	if allowInvalid && c01OneIn(t, label+".invalidRule", 25) {
 		r.Invalid = true
 		switch rapid.IntRange(0, 2).Draw(t, label+".invalidKind") {
 		case 0:
@@ -439,20 +483,32 @@ func c01RulesDesc(specs []c01RuleSpec) string {
 
 // ---- slot value generators --------------------------------------------------------------------
 
-func c01GenWEP(ifacePrefix string) func(t *rapid.T, u *c01Universe, label string) c01Ver {
+func c01GenWEP(ifacePrefix string, local bool) func(t *rapid.T, u *c01Universe, label string) c01Ver {
 	return func(t *rapid.T, u *c01Universe, label string) c01Ver {
 		name := ifacePrefix
 		profiles := c01SubsetOrdered(t, label+".profiles", c01ProfileIDs, 3)
 		v4 := c01SubsetOrdered(t, label+".v4", c01V4Addrs, 2)
+		if local && u.SteerBlocks {
+			// Same draws, remapped position-wise to addresses outside the block CIDRs.
+			for i, a := range v4 {
+				for j, b := range c01V4Addrs {
+					if a == b && c01V4AddrsOutsideBlocks[j] != a {
+						v4[i] = c01V4AddrsOutsideBlocks[j]
+						u.Steered[c01SigBlockStale] = true
+						break
+					}
+				}
+			}
+		}
 		v6 := c01SubsetOrdered(t, label+".v6", c01V6Addrs, 1)
 		labels := c01Labels(t, label)
 		ports, invalid := c01EndpointPorts(t, label, true)
 		var spoof []string
 		switch rapid.IntRange(0, 29).Draw(t, label+".variant") {
-		case 0:
+		case 29:
 			name = "" // fails validateWorkloadEndpoint
 			invalid = true
-		case 1:
+		case 28:
 			spoof = []string{"10.9.0.0/24"}
 			if !u.SpoofingAllowed {
 				invalid = true
@@ -491,7 +547,7 @@ func c01GenHEP(t *rapid.T, u *c01Universe, label string) c01Ver {
 	v6 := c01SubsetOrdered(t, label+".v6", c01V6Addrs, 1)
 	labels := c01Labels(t, label)
 	ports, invalid := c01EndpointPorts(t, label, true)
-	if rapid.IntRange(0, 24).Draw(t, label+".badiface") == 0 {
+	if c01OneIn(t, label+".badiface", 25) {
 		name = "bad iface name!"
 		invalid = true
 	}
@@ -523,11 +579,11 @@ func c01GenProfileLabels(name string) func(t *rapid.T, u *c01Universe, label str
 		if rapid.Bool().Draw(t, label+".profLabel") {
 			labels["prof"] = name
 		}
-		if rapid.IntRange(0, 2).Draw(t, label+".pcol") == 0 {
+		if c01OneIn(t, label+".pcol", 3) {
 			labels["pcol"] = rapid.SampledFrom([]string{"blue", "red"}).Draw(t, label+".pcolVal")
 		}
 		invalid := false
-		if rapid.IntRange(0, 24).Draw(t, label+".badlabel") == 0 {
+		if c01OneIn(t, label+".badlabel", 25) {
 			labels["bad key!"] = "v"
 			invalid = true
 		}
@@ -544,10 +600,14 @@ func c01GenProfileLabels(name string) func(t *rapid.T, u *c01Universe, label str
 
 func c01GenTier(t *rapid.T, u *c01Universe, label string) c01Ver {
 	orderIdx := rapid.IntRange(0, 4).Draw(t, label+".order")
-	orders := []float64{0, 1, 2, 2, 10}
 	action := rapid.SampledFrom([]v3.Action{"", v3.Deny, v3.Pass}).Draw(t, label+".defaultAction")
+	return c01MkTierVer(orderIdx, action)
+}
+
+func c01MkTierVer(orderIdx int, action v3.Action) c01Ver {
+	orders := []float64{0, 1, 2, 2, 10}
 	desc := fmt.Sprintf("Tier{order=%v defaultAction=%q}", map[bool]any{true: "nil", false: orders[orderIdx]}[orderIdx == 0], action)
-	return c01Ver{Desc: desc, Mk: func() any {
+	v := c01Ver{Desc: desc, Mk: func() any {
 		tier := &model.Tier{DefaultAction: action}
 		if orderIdx > 0 {
 			o := orders[orderIdx]
@@ -555,6 +615,10 @@ func c01GenTier(t *rapid.T, u *c01Universe, label string) c01Ver {
 		}
 		return tier
 	}}
+	if action != "" {
+		v.Neutral = func() c01Ver { return c01MkTierVer(orderIdx, "") }
+	}
+	return v
 }
 
 func c01GenPolicy(kind, namespace string) func(t *rapid.T, u *c01Universe, label string) c01Ver {
@@ -568,7 +632,7 @@ func c01GenPolicy(kind, namespace string) func(t *rapid.T, u *c01Universe, label
 		invalid := inv1 || inv2
 		types := rapid.SampledFrom([][]string{{"ingress"}, {"egress"}, {"ingress", "egress"}, {"ingress", "egress"}, nil}).Draw(t, label+".types")
 		flavour := rapid.SampledFrom([]string{"normal", "normal", "normal", "normal", "normal", "forward", "untracked", "prednat"}).Draw(t, label+".flavour")
-		always := rapid.IntRange(0, 5).Draw(t, label+".always") == 0
+		always := c01OneIn(t, label+".always", 6)
 		var untracked, prednat, aof bool
 		switch flavour {
 		case "forward":
@@ -588,10 +652,10 @@ func c01GenPolicy(kind, namespace string) func(t *rapid.T, u *c01Universe, label
 			hints = []v3.PolicyPerformanceHint{v3.PerfHintAssumeNeededOnEveryNode}
 		}
 		switch rapid.IntRange(0, 29).Draw(t, label+".variant") {
-		case 0:
+		case 29:
 			sel = "a == " // invalid selector
 			invalid = true
-		case 1:
+		case 28:
 			hints = []v3.PolicyPerformanceHint{"BogusHint"}
 			invalid = true
 		}
@@ -632,7 +696,7 @@ func c01GenNetSet(t *rapid.T, u *c01Universe, label string) c01Ver {
 	labels := c01Labels(t, label)
 	profiles := c01SubsetOrdered(t, label+".profiles", []string{"p1", "p2", "kns.ns1"}, 1)
 	invalid := false
-	if rapid.IntRange(0, 24).Draw(t, label+".badprofile") == 0 {
+	if c01OneIn(t, label+".badprofile", 25) {
 		profiles = []string{"bad name!"}
 		invalid = true
 	}
@@ -648,9 +712,12 @@ func c01GenNetSet(t *rapid.T, u *c01Universe, label string) c01Ver {
 
 func c01GenPool(cidr string) func(t *rapid.T, u *c01Universe, label string) c01Ver {
 	return func(t *rapid.T, u *c01Universe, label string) c01Ver {
-		mode := rapid.SampledFrom([]string{"vxlan", "vxlan", "vxlan-cross", "ipip", "ipip-cross", "none"}).Draw(t, label+".encap")
+		mode := rapid.SampledFrom([]string{"vxlan", "vxlan", "vxlan", "vxlan-cross", "vxlan-cross", "ipip", "ipip-cross", "none"}).Draw(t, label+".encap")
+		if u.PreferVXLAN && mode != "vxlan" && mode != "vxlan-cross" && rapid.IntRange(0, 3).Draw(t, label+".preferVXLAN") > 0 {
+			mode = "vxlan"
+		}
 		masq := rapid.Bool().Draw(t, label+".masq")
-		disabled := rapid.IntRange(0, 5).Draw(t, label+".disabled") == 0
+		disabled := c01OneIn(t, label+".disabled", 6)
 		uses := rapid.SampledFrom([][]v3.IPPoolAllowedUse{nil, {v3.IPPoolAllowedUseWorkload}, {v3.IPPoolAllowedUseWorkload, v3.IPPoolAllowedUseTunnel}}).Draw(t, label+".uses")
 		desc := fmt.Sprintf("IPPool{cidr=%s encap=%s masq=%v disabled=%v uses=%v}", cidr, mode, masq, disabled, uses)
 		return c01Ver{Desc: desc, Mk: func() any {
@@ -694,6 +761,10 @@ func c01GenBlock(cidr string) func(t *rapid.T, u *c01Universe, label string) c01
 			}
 			seen[ord] = true
 			node := rapid.SampledFrom([]string{c01Local, c01Remote, c01Remote2, ""}).Draw(t, fmt.Sprintf("%s.alloc[%d].node", label, i))
+			if u.SteerBlocks && node != aff {
+				node = aff // no borrowed (non-affine) allocation: it would be a /32 route nested in the block
+				u.Steered[c01SigBlockStale] = true
+			}
 			allocs = append(allocs, alloc{ord, node})
 		}
 		desc := fmt.Sprintf("Block{cidr=%s affinity=%q allocs=%v}", cidr, aff, allocs)
@@ -728,19 +799,36 @@ func c01GenBlock(cidr string) func(t *rapid.T, u *c01Universe, label string) c01
 func c01GenNode(name string) func(t *rapid.T, u *c01Universe, label string) c01Ver {
 	return func(t *rapid.T, u *c01Universe, label string) c01Ver {
 		// Host addresses: overlapping on purpose between nodes (the FV suite covers dup node IPs).
-		v4 := rapid.SampledFrom([]string{"", "192.168.0.1/24", "192.168.0.2/24", "192.168.0.3/24", "192.168.0.2/32", "172.16.0.2/24"}).Draw(t, label+".bgpV4")
+		v4 := rapid.SampledFrom([]string{"192.168.0.1/24", "192.168.0.2/24", "192.168.0.3/24", "192.168.0.2/32", "172.16.0.2/24", "192.168.0.3/24", "192.168.0.1/24", ""}).Draw(t, label+".bgpV4")
 		v6 := rapid.SampledFrom([]string{"", "", "fd00:1::1/64", "fd00:1::2/64"}).Draw(t, label+".bgpV6")
-		bgpForm := rapid.SampledFrom([]string{"bgp", "bgp", "bgp", "nil", "addresses"}).Draw(t, label+".form")
+		bgpForm := rapid.SampledFrom([]string{"bgp", "bgp", "bgp", "bgp", "bgp", "nil", "addresses"}).Draw(t, label+".form")
 		labels := map[string]string{}
 		if rapid.Bool().Draw(t, label+".hasLabel") {
 			labels["rack"] = rapid.SampledFrom([]string{"r1", "r2"}).Draw(t, label+".rack")
 		}
 		vxlanAddr := rapid.SampledFrom([]string{"", "", "10.0.9.1"}).Draw(t, label+".specVXLAN")
 		invalid := false
+		if u.PreferVXLAN && rapid.IntRange(0, 3).Draw(t, label+".preferBGPv4") > 0 {
+			bgpForm = "bgp"
+			if v4 == "" {
+				v4 = "192.168.0.2/24"
+			}
+		}
+		if name == c01Local && u.SteerLocalNode {
+			// The local node never changes its set of address families while it exists: v4-only.
+			if v6 != "" {
+				v6 = ""
+				u.Steered[c01SigSameSubnetStale] = true
+			}
+			if v4 == "" && bgpForm != "nil" {
+				bgpForm = "nil"
+				u.Steered[c01SigSameSubnetStale] = true
+			}
+		}
 		if bgpForm == "bgp" && v4 == "" && v6 == "" {
 			bgpForm = "nil"
 		}
-		if rapid.IntRange(0, 24).Draw(t, label+".badaddr") == 0 {
+		if c01OneIn(t, label+".badaddr", 25) {
 			bgpForm, v4, invalid = "bgp", "not-an-ip", true
 		}
 		desc := fmt.Sprintf("Node{form=%s v4=%q v6=%q labels=%s specVXLAN=%q}", bgpForm, v4, v6, c01LabelsDesc(labels), vxlanAddr)
@@ -775,20 +863,20 @@ func c01GenHostCfg(values []string) func(t *rapid.T, u *c01Universe, label strin
 
 // ---- the catalogue ------------------------------------------------------------------------------
 
-func c01NewUniverse(spoofingAllowed bool) *c01Universe {
-	u := &c01Universe{SpoofingAllowed: spoofingAllowed}
+func c01NewUniverse(spoofingAllowed, steerBlocks, steerLocalNode bool) *c01Universe {
+	u := &c01Universe{SpoofingAllowed: spoofingAllowed, SteerBlocks: steerBlocks, SteerLocalNode: steerLocalNode, Steered: map[string]bool{}}
 	add := func(name, class string, key model.Key, gen func(t *rapid.T, u *c01Universe, label string) c01Ver) {
 		u.Slots = append(u.Slots, c01Slot{Name: name, Class: class, Key: key, Gen: gen})
 	}
 	wep := func(host, wl string) model.WorkloadEndpointKey {
 		return model.WorkloadEndpointKey{Hostname: host, OrchestratorID: "k8s", WorkloadID: "ns1/" + wl, EndpointID: "eth0"}
 	}
-	add("wep/l1", "wep-local", wep(c01Local, "l1"), c01GenWEP("cali1"))
-	add("wep/l2", "wep-local", wep(c01Local, "l2"), c01GenWEP("cali2"))
-	add("wep/l3", "wep-local", wep(c01Local, "l3"), c01GenWEP("cali3"))
-	add("wep/r1", "wep-remote", wep(c01Remote, "r1"), c01GenWEP("calir1"))
-	add("wep/r2", "wep-remote", wep(c01Remote, "r2"), c01GenWEP("calir2"))
-	add("wep/q1", "wep-remote", wep(c01Remote2, "q1"), c01GenWEP("caliq1"))
+	add("wep/l1", "wep-local", wep(c01Local, "l1"), c01GenWEP("cali1", true))
+	add("wep/l2", "wep-local", wep(c01Local, "l2"), c01GenWEP("cali2", true))
+	add("wep/l3", "wep-local", wep(c01Local, "l3"), c01GenWEP("cali3", true))
+	add("wep/r1", "wep-remote", wep(c01Remote, "r1"), c01GenWEP("calir1", false))
+	add("wep/r2", "wep-remote", wep(c01Remote, "r2"), c01GenWEP("calir2", false))
+	add("wep/q1", "wep-remote", wep(c01Remote2, "q1"), c01GenWEP("caliq1", false))
 	add("hep/lh1", "hep-local", model.HostEndpointKey{Hostname: c01Local, EndpointID: "lh1"}, c01GenHEP)
 	add("hep/lh2", "hep-local", model.HostEndpointKey{Hostname: c01Local, EndpointID: "lh2"}, c01GenHEP)
 	add("hep/rh1", "hep-remote", model.HostEndpointKey{Hostname: c01Remote, EndpointID: "rh1"}, c01GenHEP)
